@@ -127,7 +127,24 @@ pub fn run_sweep<E: Elem>(seed: u64, cfg: &ArrayCfg, mut j: Journal<'_>, only_va
     }
     // 2. the operation under the sweep
     let split_sweep = matches!(cfg.profile, Profile::C12 | Profile::C07);
-    let variants: Vec<Step> = if split_sweep {
+    let variants: Vec<Step> = if cfg.profile == Profile::C06 {
+        // every insertion index 0..=dim+1 x every supplied length 0..=dim+1, rows or columns
+        let (c, r) = eng.model.size();
+        let rows_not_cols = rng.chance(1, 2);
+        let (dim, other) = if rows_not_cols { (r, c) } else { (c, r) };
+        let mut v = Vec::new();
+        for idx in 0..=dim + 1 {
+            for len in 0..=other + 1 {
+                let op = if rows_not_cols { Op::InsertRow { idx, len, lie: Lie::Honest } } else { Op::InsertCol { idx, len, lie: Lie::Honest } };
+                v.push(Step { op, fault: None });
+            }
+        }
+        if v.len() > 150 {
+            let k = (v.len() + 149) / 150;
+            v = v.into_iter().step_by(k).collect();
+        }
+        v
+    } else if split_sweep {
         let (c, r) = eng.model.size();
         let which = if cfg.profile == Profile::C07 { rng.below(4) } else { rng.below(5) };
         let line = match which {
@@ -219,7 +236,7 @@ pub fn run_sweep<E: Elem>(seed: u64, cfg: &ArrayCfg, mut j: Journal<'_>, only_va
             v = gen_and_exec(&mut eng, &mut srng, &quiet, suffix_len, &mut done, &mut j);
         }
         let mut o = finish(eng, done, cfg.flavour, cfg.alloc_mode, v);
-        o.fault_runs = cfg.profile != Profile::C07;
+        o.fault_runs = !matches!(cfg.profile, Profile::C07 | Profile::C06);
         let stop = o.viol.is_some();
         outs.push(o);
         if stop {
